@@ -9,6 +9,7 @@ MCLocalRelsQ == { [ups |-> 0, names |-> <<"m">>], [ups |-> 1, names |-> <<>>] }
 MCAdds == { Art(Rem("P1", <<>>), "F1"), Art(Rem("P2", <<"m">>), "F1"), Art(Reg("R1", <<>>, {1, 2}), "F1"), Art(Reg("R1", <<"m">>, {2}), "F1") }
 MCAdds3 == MCAdds \cup { Art(Rem("P1", <<>>), "F2"), Art(Rem("P3", <<>>), "F1"), Art(Reg("R2", <<>>, {1, 2, 3}), "F2") }
 MCSubs1 == { <<>> }
+MCLocalRels0 == { [ups |-> 0, names |-> <<"m">>] }      \* relative dependencies that cannot fail to resolve
 \* version selection universe: several requests against one registry package
 MCAddsV == { Art(Reg("R1", <<>>, al), "F1") : al \in MCAllowed } \cup { Art(Reg("R1", <<"m">>, {2}), "F1") }
 \* coalescing universe: remote adds only
